@@ -281,12 +281,14 @@ struct StrSpace {
     int T = 0, n = 0, count = 0;
     std::vector<int> len, cat;          // cat[a*count+b] = id of concatenation or -1
     std::vector<std::string> str;       // as letters 'a'+k
-    void init(int T_, int n_) {
+    void init(int T_, int n_, bool with_cat = true) {
         T = T_; n = n_; str.clear(); str.push_back("");
         size_t lo = 0;
         for (int l = 1; l <= n; ++l) { size_t hi = str.size(); for (size_t i = lo; i < hi; ++i) for (int c = 0; c < T; ++c) str.push_back(str[i] + char('a' + c)); lo = hi; }
         count = (int)str.size(); len.resize(count);
         for (int i = 0; i < count; ++i) len[i] = (int)str[i].size();
+        cat.clear();
+        if (!with_cat) return;   // the concatenation table (count^2 entries) is only needed by Lang
         cat.assign((size_t)count * count, -1);
         for (int a = 0; a < count; ++a) for (int b = 0; b < count; ++b) if (len[a] + len[b] <= n) cat[(size_t)a * count + b] = id_of(str[a] + str[b]);
     }
